@@ -228,3 +228,58 @@ def truncated_commutes_and_idempotent(t, p):
     assert instant(r1) == instant(r2) and same_zone(r1, r2)
     r3 = t + r1
     assert instant(r3) == instant(r1)
+
+
+# ---------------------------------------------------------------- recurrences (C12, C14)
+def rec_three_notations_equal(s, d, n):
+    assume(n >= 2 and dlen(d) > 0)
+    r3 = TimeRecurrence(repetitions=n, start_point=s, duration=d)
+    r1 = TimeRecurrence(repetitions=n, start_point=s, end_point=s + d)
+    r4 = TimeRecurrence(repetitions=n, end_point=s + d * (n - 1), duration=d)
+    assert r3 == r1 and r1 == r3
+    assert r3 == r4 and r4 == r3
+    assert r1 == r4
+
+
+def rec_shift_and_back(r, d):
+    assume(not (dlen(d) == 0))
+    q = (r + d) - d
+    assert q == r
+    w = d + r
+    assert w == (r + d)
+
+
+def rec_equal_implies_equal_hash(a, b):
+    # hash(r) is hash((repetitions, start, end, interval, min, max)): by congruence of
+    # tuple hashing it suffices that equal recurrences have component-wise equal hashes
+    if a == b:
+        assert (a._repetitions is None) == (b._repetitions is None)
+        if a._repetitions is not None and b._repetitions is not None:
+            assert a._repetitions == b._repetitions
+        if a._start_point is not None and b._start_point is not None:
+            h1 = hash(a._start_point)
+            h2 = hash(b._start_point)
+            hash_lemma(h1, h2)
+            assert h1 == h2
+        if a._end_point is not None and b._end_point is not None:
+            h3 = hash(a._end_point)
+            h4 = hash(b._end_point)
+            hash_lemma(h3, h4)
+            assert h3 == h4
+        if a._duration is not None and b._duration is not None:
+            assert hash(a._duration) == hash(b._duration)
+
+
+def rec_unequal_when_one_component_differs(a, b):
+    if a._repetitions is not None and b._repetitions is not None:
+        if a._repetitions != b._repetitions:
+            assert a != b
+    if a._duration is not None and b._duration is not None:
+        if dlen(a._duration) != dlen(b._duration):
+            assert a != b
+    if a._start_point is not None and b._start_point is not None:
+        if instant(a._start_point) != instant(b._start_point):
+            assert a != b
+    if a._end_point is not None and b._end_point is not None:
+        if instant(a._end_point) != instant(b._end_point):
+            assert a != b
